@@ -478,12 +478,6 @@ func c13resolve(c *core.Ctx, r *core.Reporter) {
 		// does the function fetch an entry (*VarVal / *FuncInfo) from a package?
 		fetches := false
 		testsExport := false
-		var private ssa.Value
-		for _, rf := range *unpack.Referrers() {
-			if ex, ok := rf.(*ssa.Extract); ok && ex.Index == 2 {
-				private = ex
-			}
-		}
 		for _, b := range fn.Blocks {
 			for _, in := range b.Instrs {
 				if v, ok := in.(ssa.Value); ok {
